@@ -1372,7 +1372,7 @@ namespace avel {
     [[nodiscard]]
     AVEL_FINL vec2x64i load<vec2x64i>(const std::int64_t* ptr, std::uint32_t n) {
         #if defined(AVEL_AVX512VL) || defined(AVEL_AVX10_1)
-        auto mask = (1 << n) - 1;
+        auto mask = (n >= 2) ? 0x3 : (1 << n) - 1;
         return vec2x64i{_mm_maskz_loadu_epi64(mask, ptr)};
 
         #elif defined(AVEL_SSE2)
@@ -1595,7 +1595,7 @@ namespace avel {
 
     AVEL_FINL void store(std::int64_t* ptr, vec2x64i x, std::uint32_t n) {
         #if defined(AVEL_AVX512VL) || defined(AVEL_AVX10_1)
-        auto mask = (1 << n) - 1;
+        auto mask = (n >= 2) ? 0x3 : (1 << n) - 1;
         _mm_mask_storeu_epi64(ptr, mask, decay(x));
 
         #elif defined(AVEL_SSE2)
